@@ -35,6 +35,7 @@ def run(ctx):
     grid += [(fn_, k_, n_, (2, 4), "insert-evicted") for fn_ in ("II", "OO") for k_ in ("BTree", "TreeSet") for n_ in (8, 19, 27, 40, 83)]
     grid += [(fn_, k_, n_, (4, 4), "multiunion") for fn_ in ("II", "LL") for k_ in ("Set", "Bucket", "TreeSet") for n_ in (3, 40)]
     grid += [("II", "Set", 16, (4, 4), "iand"), ("OO", "TreeSet", 16, (4, 4), "iand"), ("LL", "TreeSet", 64, (4, 4), "iand")]
+    grid += [(fn_, k_, n_, (4, 4), w_) for fn_ in ("II", "LF", "OI") for k_ in ("Set", "Bucket", "BTree") for n_ in (3, 40) for w_ in ("wunion", "wintersection")]
     for it in range(len(grid) + ctx.n(80, 12000)):
         fn = rng.choice(fams)
         kind = rng.choice(["Bucket", "Set", "BTree", "TreeSet", "BTree"])
@@ -47,7 +48,7 @@ def run(ctx):
         forced_n = None
         if isinstance(forced, tuple):
             forced, forced_n = forced
-        opname = forced or rng.choice(["insert", "insert", "update", "setstate", "union", "intersection", "difference", "multiunion", "merge", "pickle", "fromBytes", "iand", "insert-evicted"])
+        opname = forced or rng.choice(["insert", "insert", "update", "setstate", "union", "intersection", "difference", "multiunion", "merge", "pickle", "fromBytes", "iand", "insert-evicted", "wunion", "wintersection"])
         if opname == "insert":
             op = ["insert", rng.choice([1, 2 * nkeys + 1, nkeys | 1])]
         elif opname == "update":
@@ -60,6 +61,10 @@ def run(ctx):
             op = ["setstate", [3 * j for j in range(forced_n or rng.choice([1, 5, 40]))]]
         elif opname in ("union", "intersection", "difference"):
             op = [opname, [3 * j for j in range(rng.choice([1, 6, 30]))]]
+        elif opname in ("wunion", "wintersection"):
+            if fn == "fs" or fn[1] not in "ILUQF":
+                continue
+            op = [opname, [3 * j for j in range(rng.choice([1, 6, 30]))], rng.choice(["Set", "Bucket"])]
         elif opname == "multiunion":
             if fn[0] == "O" or fn == "fs":
                 continue
